@@ -239,7 +239,7 @@ pub fn run_type<T: Reg>(cx: &mut Cx, name: &str) {
 				let v = T::gen(&mut r, 0);
 				value_case::<T>(cx, name, &desc, &v, seed);
 			},
-			"alloc" => {
+			"alloc" | "peak" => {
 				alloc_case::<T>(cx, name, &desc, &unhex(&only[3]), only[2] == "1");
 			},
 			_ => {},
@@ -710,7 +710,7 @@ fn alloc_case<T: Reg>(cx: &mut Cx, name: &str, desc: &str, inp: &[u8], known: bo
 		let m = crate::alloc::Meter::start();
 		let res = match kind {
 			0 => dec_slice::<T>(inp).tag(),
-			1 => dec_rec::<T>(inp, false).0.tag(),
+			1 => dec_unknown_quiet::<T>(inp).tag(),
 			_ => catch_unwind(AssertUnwindSafe(|| parity_scale_codec::decode_from_bytes::<T>(bytes::Bytes::copy_from_slice(inp)).is_ok())).map_or("panic", |x| if x { "ok" } else { "err" }),
 		};
 		let u = m.stop();
@@ -718,6 +718,10 @@ fn alloc_case<T: Reg>(cx: &mut Cx, name: &str, desc: &str, inp: &[u8], known: bo
 		let kname = ["slice", "unknown-length", "shared-buffer"][kind];
 		let extra = if kind == 2 { inp.len() as u128 + 256 } else { 0 };
 		cx.stats.bump(&format!("measured/{kname}/{res}"));
+		if kind < 2 && inp.len() <= 20000 {
+			// tie to the model: the measured peak against the reservations of the model's trace
+			cx.cases.push(format!("(GPeak {} {} {} {})", desc, b(kind == 0), blist(inp), u.peak), format!("{name}\tpeak\t{}\t{}", (kind == 0) as u8, hex(&inp[..inp.len().min(4096)])), u.peak > 0);
+		}
 		cx.oracle.check((u.peak as u128) <= bound + extra, class, || {
 			format!("{rp}\tinput={kname}\tlen={}\tpeak_live={}\tmax_request={}\tbound={}", inp.len(), u.peak, u.max_request, bound + extra)
 		});
